@@ -71,7 +71,13 @@ func NewReader(r io.Reader, crc16 bool) (*Reader, error) {
 	r = io.TeeReader(r, d.crcw)
 	d.r = newBitReader(r)
 
-	return d, binary.Read(r, binary.LittleEndian, &d.header.size)
+	if err := binary.Read(r, binary.LittleEndian, &d.header.size); err != nil {
+		return d, err
+	}
+	if d.header.size < 0 {
+		return nil, errors.New("lzhuf: invalid size in header")
+	}
+	return d, nil
 }
 
 // Close closes the Reader. It does not close the underlying io.Reader.
